@@ -314,6 +314,11 @@ pub struct History {
     pub ops: Vec<Op>,
     /// states[i] = content after i operations (states[0] = freshly created keyspaces)
     pub states: Vec<Content>,
+    /// sync_fence[i]: once op i has returned, everything up to and including it survives a power loss
+    /// (persist(SyncData|SyncAll), a commit with such durability, a finished journal rotation, a database drop)
+    pub sync_fence: Vec<bool>,
+    /// buffer_fence[i]: once op i has returned, everything up to it survives a process crash even with manual journal persist
+    pub buffer_fence: Vec<bool>,
 }
 
 /// Which prefix (if any) within lo..=hi the recovered content equals.
@@ -325,11 +330,26 @@ pub fn matching_prefix(h: &History, got: &Content, lo: usize, hi: usize) -> Opti
 pub fn record(dir: PathBuf, cfg: Cfg, ops: &[Op]) -> Result<(World, History), Violation> {
     let mut w = World::new(dir, cfg.clone())?;
     let mut states = vec![model_content(&w.model)];
+    let mut sync_fence = vec![];
+    let mut buffer_fence = vec![];
     for op in ops {
+        let jb = journal_files(&w.dir);
         w.apply(op)?;
+        let ja = journal_files(&w.dir);
+        let rotated = ja.iter().any(|j| !jb.contains(j));
+        let sf = rotated
+            || matches!(op, Op::Persist { mode } if *mode >= 1)
+            || matches!(op, Op::BatchD(_, d) | Op::TxD(_, d) if *d >= 2)
+            || matches!(op, Op::Reopen);
+        let bf = sf
+            || matches!(op, Op::Persist { .. })
+            || matches!(op, Op::BatchD(_, d) | Op::TxD(_, d) if *d >= 1)
+            || (!cfg.manual_persist && matches!(op, Op::Ins { .. } | Op::Rem { .. } | Op::Batch(_) | Op::Tx(_) | Op::Clear { .. }));
+        sync_fence.push(sf);
+        buffer_fence.push(bf);
         states.push(model_content(&w.model));
     }
-    Ok((w, History { cfg, ops: ops.to_vec(), states }))
+    Ok((w, History { cfg, ops: ops.to_vec(), states, sync_fence, buffer_fence }))
 }
 
 /// Truncates `file` to `c` bytes; with `pad` re-extends it with zeros to `full` bytes.
